@@ -29,6 +29,7 @@ def walk_paths(
     stop: Callable[[Node], bool] | None = None,
     follow: Callable[[str | None], bool] | None = None,
     max_paths: int = 60000,
+    edge_ok: Callable[[Node, Node, str | None], bool] | None = None,
 ):
     """Yield (path, state) for every maximal feasible path from ``start``.
     path = list of (Node, label-of-edge-taken-out-of-it | None for the last)."""
@@ -43,9 +44,13 @@ def walk_paths(
         if stop is not None and stop(n):
             results.append((path + [(n, None)], state))
             return
-        any_succ = False
+        if not g.succ[nid]:
+            results.append((path + [(n, None)], state))
+            return
         for b, lab in g.succ[nid]:
             if follow is not None and not follow(lab):
+                continue
+            if edge_ok is not None and not edge_ok(n, g.nodes[b], lab):
                 continue
             e = (nid, b, lab)
             if e in used:
@@ -53,14 +58,11 @@ def walk_paths(
             st2 = step(state, n, lab)
             if st2 is None:
                 continue
-            any_succ = True
             used.add(e)
             path.append((n, lab))
             rec(b, st2)
             path.pop()
             used.discard(e)
-        if not any_succ:
-            results.append((path + [(n, None)], state))
 
     rec(start, init_state)
     return results
@@ -179,6 +181,11 @@ class BoolFacts:
         return True
 
 
+# zero-argument query methods whose outcome is remembered along a path (until
+# the receiver is re-assigned or a rule's event hook overrides the fact)
+CALL_FACTS = {"is_closing", "is_delete"}
+
+
 def _ctor_like(call: ast.Call) -> bool:
     """A call whose result cannot be None for the purposes of null tracking:
     constructor-looking or factory function calls (``create_*``, ``_create_*``,
@@ -196,6 +203,15 @@ def _classify(expr: ast.AST):
     if isinstance(expr, (ast.Name, ast.Attribute)):
         d = dotted(expr)
         return (d, "truth", neg) if d else (None, None, False)
+    if (
+        isinstance(expr, ast.Call)
+        and not expr.args
+        and not expr.keywords
+        and isinstance(expr.func, ast.Attribute)
+        and expr.func.attr in CALL_FACTS
+    ):
+        d = dotted(expr.func)
+        return (d + "()", "truth", neg) if d else (None, None, False)
     if isinstance(expr, ast.Compare) and len(expr.ops) == 1 and is_none(expr.comparators[0]):
         d = dotted(expr.left)
         if d is None:
@@ -208,13 +224,24 @@ def _classify(expr: ast.AST):
 
 
 def boolfacts_step(state: BoolFacts, node: Node, label: str | None):
-    st = state.copy()
+    """Copy-on-write transfer: states are treated as immutable values."""
     if node.kind == "test" and label in ("T", "F") and node.ast is not None:
+        if _classify(node.ast)[0] is None:
+            return state
+        st = state.copy()
         if not st.test(node.ast, label == "T"):
             return None
-    elif node.kind in ("stmt", "with"):
-        st.assign(node)
-    elif node.kind == "for" and isinstance(node.ast, (ast.For, ast.AsyncFor)):
+        return st
+    if node.kind in ("stmt", "with"):
+        a = node.ast
+        if isinstance(a, (ast.Assign, ast.AnnAssign, ast.AugAssign, ast.withitem)):
+            st = state.copy()
+            st.assign(node)
+            return st
+        return state
+    if node.kind == "for" and isinstance(node.ast, (ast.For, ast.AsyncFor)):
+        st = state.copy()
         for nm in target_names(node.ast.target):
             st.kill(nm)
-    return st
+        return st
+    return state
